@@ -44,6 +44,10 @@ pub struct C11 {
 	gen: HistGen,
 	pending_mut: Option<(usize, usize)>,
 	p_mutate: u64,
+	/// scripted steps (LIFO): a mined proof transaction is re-organised away and then
+	/// verified by each party
+	queue: Vec<Step>,
+	reorg_scripts_left: u32,
 }
 
 fn proof_msg(amount: u64, excess: &Commitment, sender: &ed25519_dalek::PublicKey) -> Vec<u8> {
@@ -75,6 +79,8 @@ impl C11 {
 			gen,
 			pending_mut: None,
 			p_mutate,
+			queue: vec![],
+			reorg_scripts_left: if run.rng.chance(1, 2) { 1 } else { 0 },
 		}
 	}
 }
@@ -175,6 +181,57 @@ impl Prop for C11 {
 					m,
 					foreign: false,
 				}));
+			}
+		}
+		if let Some(s) = self.queue.pop() {
+			return Some(s);
+		}
+		// scripted: both parties see the proof transaction confirmed, the chain
+		// re-organises it away, then sender, recipient and a bystander verify the proof
+		if self.gen.setup_done && self.reorg_scripts_left > 0 && run.rng.chance(1, 5) {
+			let tip = run.ex.world.chain.height();
+			let cands: Vec<usize> = run
+				.model
+				.deals
+				.iter()
+				.enumerate()
+				.filter(|(_, d)| {
+					d.proof && d.finalized && d.kind == DealKind::Send && d.payee.is_some()
+						&& d.mined.map(|h| tip + 1 - h <= 5 && tip + 1 - h < tip).unwrap_or(false)
+				})
+				.map(|(i, _)| i)
+				.collect();
+			if !cands.is_empty() {
+				self.reorg_scripts_left -= 1;
+				let d = *run.rng.pick(&cands);
+				let deal = run.model.deals[d].clone();
+				let depth = tip + 1 - deal.mined.unwrap();
+				let nw = run.ex.world.wallets.len();
+				let mut seq = vec![
+					Step::new(Op::Refresh { w: deal.initiator }),
+					Step::new(Op::Refresh { w: deal.payee.unwrap() }),
+					Step::new(Op::Fork { depth, extra: run.rng.range(1, 2), include: false, readd: false }),
+				];
+				let mut verifiers = vec![deal.initiator, deal.payee.unwrap()];
+				for w in 0..nw {
+					if !verifiers.contains(&w) {
+						verifiers.push(w);
+						break;
+					}
+				}
+				for w in verifiers {
+					if run.rng.chance(1, 2) {
+						seq.push(Step::new(Op::Refresh { w }));
+					}
+					seq.push(Step::new(Op::Custom {
+						name: "verify_proof".into(),
+						args: json!({"w": w, "sender": deal.initiator, "m": deal.m1, "mut": "none", "arg": 0}),
+					}));
+				}
+				run.cov.probe("reorg_then_verify_scripted");
+				seq.reverse();
+				self.queue = seq;
+				return self.queue.pop();
 			}
 		}
 		// verification steps for finalized proof-carrying deals
